@@ -62,6 +62,14 @@ def networks(tier, seed):
     # signed integer weights that cancel exactly: the total weight of the network is 0 (any normalisation by it is 0/0)
     for i, g in enumerate(und[::2]):
         out.append((g, 'signed', 'zerosum', i))
+    # directed AND signed: community_louvain's negative_sym / negative_asym objectives (out- times in-strength null model
+    # on each sign)
+    for i, g in enumerate(dr[1::2]):
+        out.append((g, 'dirsigned', ['signed', 'signedint'][i % 2], i))
+    # everything on a 1e-10 scale with a third of the connections slightly negative, none below -1e-10: the plain
+    # 'modularity' objective accepts such input (its own tolerance) and has to score it as it is
+    for i, g in enumerate(und[1::3]):
+        out.append((g, 'und', 'tinyneg', i))
     # connection COUNTS: integer dtype, total weight far above 2**31
     for i, g in enumerate(und[2::5]):
         out.append((g, 'und', 'counts', i))
@@ -72,7 +80,7 @@ def networks(tier, seed):
 
 def build_net(g, kind, w, ws, selfw=False):
     A = G.build(g)
-    directed = kind == 'dir'
+    directed = kind in ('dir', 'dirsigned')
     if w == 'counts':
         # total weight 4e9..8e9 (its square does not fit in int64) while every product of two node strengths still
         # does (< 2**62): beyond that the unchanged library itself overflows in np.outer(k, k) -- see DESIGN 5.3
@@ -87,6 +95,14 @@ def build_net(g, kind, w, ws, selfw=False):
         ko, ki = W.sum(1).astype(float), W.sum(0).astype(float)
         if ko.max() * ki.max() >= 2.0 ** 62:
             W = (W // 8).astype(np.int64)
+        return W
+    if w == 'tinyneg':
+        rs = np.random.RandomState(ws + 11)
+        Wt = rs.uniform(.2, .99, size=A.shape) * 1e-10 * np.where(rs.rand(*A.shape) < .33, -1.0, 1.0)
+        Wt = np.triu(Wt, 1)
+        W = A * (Wt + Wt.T)
+        if W.sum() <= 0:
+            W = np.abs(W)
         return W
     if w == 'zerosum':
         W = G.weigh(A, 'signedint', ws, symmetric=True)
@@ -142,7 +158,7 @@ def run(case, bct, REC):
     kind = case['kind']
     W = build_net(case['g'], kind, case['w'], case['ws'], case['selfw'])
     n = len(W)
-    if W.sum() <= 0 and kind != 'signed':
+    if W.sum() <= 0 and kind not in ('signed', 'dirsigned'):
         return
     if kind == 'signed' and not (W > 0).any():
         return
@@ -153,6 +169,24 @@ def run(case, bct, REC):
         return [rngmod.make_rng({'kind': 'spy', 'seed': rsd})] + \
                [rngmod.make_rng({'kind': 'hostile', 'policy': POL[(rsd + j) % len(POL)], 'seed': rsd}) for j in range(k - 1)]
     binary = bool(np.all((W == 0) | (W == 1)))
+    if kind == 'dirsigned':
+        if not (W > 0).any() or not (W < 0).any():
+            return
+        for g in GAMMAS:
+            for B in ('negative_sym', 'negative_asym'):
+                for r in rngs():
+                    modq.execute(REC, bct, 'community_louvain', W, {'gamma': g, 'B': B}, r)
+                for st in sts[1:6]:
+                    modq.execute(REC, bct, 'community_louvain', W, {'gamma': g, 'B': B}, rngs(1)[0], start=st)
+        return
+    if case['w'] == 'tinyneg':
+        # only the routine that documents a tolerance for slightly negative input
+        for g in GAMMAS:
+            for r in rngs():
+                modq.execute(REC, bct, 'community_louvain', W, {'gamma': g, 'B': 'modularity'}, r)
+            for st in sts[1:5]:
+                modq.execute(REC, bct, 'community_louvain', W, {'gamma': g, 'B': 'modularity'}, rngs(1)[0], start=st)
+        return
     if kind == 'und':
         for g in GAMMAS:
             for r in rngs():
